@@ -77,6 +77,7 @@ func runC12(c *an.Ctx) {
 	c12set(c)
 	c12call(c)
 	c12kind(c)
+	c12writerAsGiven(c)
 	p := c.P
 	info := p.Jet.TypesInfo
 	eval, parse := p.Eval(), p.Parse()
